@@ -23,3 +23,35 @@ Definition sel_field (s : cost_sel) : option string :=
 
 (* where the unit count of a dependent first charge is read from (rfield/immw: Vm/FlowSpec.v) *)
 Inductive unit_src := UReg (f : rfield) | UImm (w : immw) | UReg0is32 (f : rfield).
+
+(* ---- full charge sequence of a handler (C26 exact totals) *)
+(* sizes the instruction reads from storage while it executes (observed per step) *)
+Inductive obsq := OCodeSize | OBlobSize.
+(* unit expressions *)
+Inductive uexpr :=
+| XReg (f : rfield) | XImm (w : immw) | XObs (o : obsq)
+| XMax (a b : uexpr)
+| XPad8 (a : uexpr)          (* padded_len_*(a), the instruction panics on u64 overflow *)
+| XPad8Max (a : uexpr)       (* padded_len_word(a).unwrap_or(u64::MAX) *)
+| XReg0is32 (f : rfield).
+Inductive cguard :=
+| GAlways
+| GModeIs (n : N)            (* the Imm06 of the instruction equals n *)
+| GNewEntry                  (* a balance entry was created by the instruction *)
+| GNz (u : uexpr)            (* the expression is non-zero *)
+| GAnd (a b : cguard).
+Inductive charge_item :=
+| ChFixed (field : string)                     (* gas_charge(field) *)
+| ChDep (field : string) (u : uexpr)           (* dependent_gas_charge(field, u): base + units *)
+| ChBase (field : string)                      (* gas_charge(field.base()) *)
+| ChDepNoBase (field : string) (u : uexpr)     (* dependent_gas_charge_without_base(field, u) *)
+| ChPerByte (n : N).                           (* gas_charge(n * new_storage_per_byte), saturating *)
+Definition cseq := list (cguard * charge_item).
+
+(* storage micro-operations of the storage instructions (after their `noop` charge) *)
+Inductive smicro :=
+| MRead (hot : bool) (len : N)                 (* storage_read_slot: read_hot/read_cold on the value length (0 if unset) *)
+| MWrite (new_len old_len : N)                 (* storage_write_slot: storage_write(new_len) + new_storage_per_byte * (new_len - old_len) *)
+| MClear (range : N).                          (* storage_clear_slot_range: storage_clear(range) *)
+(* shape of the micro-operation list an opcode may produce *)
+Inductive sshape := ShRead | ShReads | ShReadWrite | ShReadWrites | ShReadsClear | ShClear | ShWrite.
